@@ -20,7 +20,7 @@ def nontrivial(evs):
 
 def run(c):
     g.model(c, "MCGossipsub_canary_notify.cfg", "HandlerView", two_conns=True)
-    traces = g.drive(c, ["mesh"], 250, 4000)
+    traces = g.drive(c, ["mesh"], 500, 4000)
     g.validate(c, "TraceGossipsub_C29.cfg", traces, nontrivial)
     return c.finish(
         "model_checking",
